@@ -1,5 +1,14 @@
 ------------------------------ MODULE FocusTreeTrace ------------------------------
 (* C08 trace validation: histories executed on real nested containers with probe leaves.       *)
+(* An event is one operation: e.pre (key events: the node table before the key), e.foc (focus   *)
+(* indices of the containers read right after the operation), then - when e.laid = 1 - a        *)
+(* rendering, then e.post (the node table).  e.pendpre / e.pend: the ListBoxes with a focus     *)
+(* change pending before the key / at the instant of e.foc; e.firstpre / e.pendfirst: those     *)
+(* never laid out at these two instants.                                                        *)
+(* The predicates are those of FocusTreeOps, the same the model FocusTree.tla is checked        *)
+(* against.  e.soft # "": the rendering (or the key / press itself) raised - recorded as a      *)
+(* divergence (rendering is C01's business); what a completed layout or call would have left    *)
+(* behind is then not judged.                                                                   *)
 EXTENDS FocusTreeOps, Json, IOUtils
 
 Traces == JsonDeserialize(IOEnv.TRACE_FILE)
@@ -13,12 +22,15 @@ Verdict(e) ==
   IF e.expect = "IndexError" /\ e.exc # "IndexError" THEN "invalid_position_raises_IndexError"
   ELSE IF e.expect = "" /\ e.exc # "" THEN "never_raises"
   ELSE IF ~FocusValid(e.post) THEN "focus_is_a_valid_child_or_none_when_empty"
-  ELSE IF e.t = "key" /\ ~(SeqSet(e.recv) \subseteq FocusPath(e.pre)) THEN "key_offered_only_on_focus_path"
-  ELSE IF e.t = "key" /\ e.handled = 0 /\ e.ret_same = 0 THEN "unhandled_key_returned_unchanged"
+  ELSE IF e.t = "key" /\ ~(SeqSet(e.recv) \subseteq Reach(e.pre, e.pendpre)) THEN "key_offered_only_on_focus_path"
+  ELSE IF e.t = "key" /\ e.soft = "" /\ ~UnhandledComesBack(e.pre, e.pendpre, e.key, e.ate, e.ret) THEN "unhandled_key_returned_unchanged"
+  ELSE IF e.t = "key" /\ e.soft = "" /\ ~KeyMovesOnlyNavigators(e.pre, e.post, e.pendpre \o e.pend, e.firstpre \o e.pendfirst, e.key) THEN "key_moves_focus_only_where_it_navigates"
   ELSE IF e.t = "key" /\ e.key \in Arrows /\ e.samestruct = 1 /\ ~ArrowOnlyToSelectable(e.pre, e.post, e.short = 1) THEN "arrow_moves_focus_only_to_selectable"
   ELSE IF e.t = "setcontents" /\ ~SelectableIffChild(e.post, e.target) THEN "selectable_iff_a_child_is_after_contents_set"
   ELSE IF ~(SeqSet(e.rfocus) \subseteq FocusPath(e.post)) THEN "only_focus_path_rendered_with_focus"
-  ELSE IF e.t = "roundtrip" /\ e.same = 0 THEN "focus_path_round_trip"
+  ELSE IF e.t = "setfocus" /\ e.want >= 0 /\ e.exc = "" /\ e.soft = "" /\ ~AssignmentTakesEffect(e.foc, e.post, e.pend, e.target, e.want) THEN "focus_assignment_takes_effect"
+  ELSE IF e.t \in {"roundtrip", "setpath"} /\ e.exc = "" /\ e.soft = "" /\ (e.p_back # e.p_saved \/ (e.p_later # e.p_saved /\ ~LayoutKeepsFocus(e.foc, e.post, e.pend, e.pendfirst))) THEN "focus_path_round_trip"
+  ELSE IF e.t # "init" /\ e.laid = 1 /\ ~LayoutKeepsFocus(e.foc, e.post, e.pend, e.pendfirst) THEN "layout_keeps_focus"
   ELSE "-"
 
 Step == /\ ok /\ l < Len(Traces[tid].ev) /\ l' = l + 1 /\ tid' = tid
